@@ -12,7 +12,7 @@ lists every attribute after that request: `c.i.a=<hex of produce()>` joined by '
 namespace Cpppo.Driver.Logix
 open Cpppo.Wire Cpppo.Logix
 
-def commands : List String := ["lgx"]
+def commands : List String := ["lgx", "lgxb"]
 
 def splitOn (s : String) (c : Char) : List String := (s.split (· == c)).toList.map (·.toString)
 
@@ -102,6 +102,18 @@ def handle : List String → Option String
     let rs ← (splitNonEmpty reqs ';').mapM parseReq
     let (_, outs) := runAll d rs
     pure (if outs.isEmpty then "-" else ";".intercalate outs)
+  | ["lgxb", maxb, tags, pre, members] => do
+    -- bundle vs singly, from the state reached by `pre`:  "<bundle reply>@<dump> | <r1>@<dump>;<r2>@<dump>…"
+    let maxb ← maxb.toNat?
+    let specs ← (splitNonEmpty tags ',').mapM parseTag
+    let d0 : Dev := { objs := [{ cls := router.1, ins := router.2, attrs := [] }], symbols := [], maxBytes := maxb }
+    let d := specs.foldl addTag d0
+    let pre ← (splitNonEmpty pre ';').mapM parseReq
+    let ms ← (splitNonEmpty members '&').mapM parseSimple
+    let (d1, _) := runAll d pre
+    let (_, a) := runAll d1 [.multiple [.cls router.1, .ins router.2] ms]
+    let (_, b) := runAll d1 (ms.map .simple)
+    pure (";".intercalate a ++ " | " ++ (if b.isEmpty then "-" else ";".intercalate b))
   | _ => none
 
 end Cpppo.Driver.Logix
